@@ -97,9 +97,36 @@ VR_FIELDS = [("XPlacement", "XPlaDevice"), ("YPlacement", "YPlaDevice"), ("XAdva
 def otl_values(table):
     """every positioning value of a GPOS / GDEF table that can carry a VariationIndex, in a
     deterministic structural order: [(value, device or None)]"""
-    from fontTools.ttLib.tables import otBase, otTables as ot
+    from fontTools.ttLib.tables import otBase, otConverters, otTables as ot
 
     out = []
+
+    def emit_vr(vr):
+        for vn, dn in VR_FIELDS:
+            out.append(((getattr(vr, vn, 0) or 0) if vr is not None else 0, getattr(vr, dn, None) if vr is not None else None))
+
+    def pair_values(subs):
+        """pair adjustment lookups by glyph pair (the instancer's merger re-derives the classes of
+        format 2, which renumbers the records): every explicitly listed pair, first subtable wins,
+        in sorted order"""
+        pairs = {}
+        for st in subs:
+            firsts = list(st.Coverage.glyphs)
+            if st.Format == 1:
+                for g1, ps in zip(firsts, st.PairSet):
+                    for pvr in ps.PairValueRecord:
+                        pairs.setdefault((g1, pvr.SecondGlyph), (pvr.Value1, pvr.Value2))
+            elif st.Format == 2:
+                c1 = st.ClassDef1.classDefs if st.ClassDef1 else {}
+                c2 = st.ClassDef2.classDefs if st.ClassDef2 else {}
+                for g1 in firsts:
+                    row = st.Class1Record[c1.get(g1, 0)]
+                    for g2, k2 in c2.items():
+                        rec = row.Class2Record[k2]
+                        pairs.setdefault((g1, g2), (rec.Value1, rec.Value2))
+        for key in sorted(pairs):
+            emit_vr(pairs[key][0])
+            emit_vr(pairs[key][1])
 
     def visit(obj):
         if isinstance(obj, otBase.ValueRecord):
@@ -114,11 +141,20 @@ def otl_values(table):
             if obj.Format in (1, 3):
                 out.append((obj.Coordinate, getattr(obj, "DeviceTable", None)))
             return
+        if isinstance(obj, ot.Lookup):
+            subs = [getattr(st, "ExtSubTable", st) for st in obj.SubTable]
+            if subs and all(isinstance(st, ot.PairPos) for st in subs):
+                pair_values(subs)
+                return
         if isinstance(obj, otBase.BaseTable):
             if isinstance(obj, (ot.VarStore, ot.Coverage, ot.ClassDef, ot.FeatureVariations)):
                 return
             for conv in obj.getConverters():
-                visit(getattr(obj, conv.name, None))
+                val = getattr(obj, conv.name, None)
+                if val is None and isinstance(conv, otConverters.ValueRecord):
+                    out.extend([(0, None)] * len(VR_FIELDS))     # an absent value record is all zeros
+                else:
+                    visit(val)
         elif isinstance(obj, (list, tuple)):
             for x in obj:
                 visit(x)
